@@ -6,24 +6,35 @@ PROPS = {
         "classes": ["TEXT"],
         "clauses": ["C17"],
         "trusted": [
-            "hand-written model coq/theories/Escape.v of src/udev_utils.rs (escape_one_char, systemd_arg_escape, build_exclude_text, build_service_text), tied to the code by the escape engine: byte-for-byte comparison of the unit text on every generated case, including every Unicode scalar value as a one-character pattern (sampled in the quick tier, complete in the thorough tier)",
-            "hand-written oracle coq/theories/Systemd.v (how systemd 252 reads an ExecStart= value: UTF-8 cleanliness, word splitting, quotes, C escapes, lone ';', % specifiers, $ variables) and coq/theories/EscapeSpec.v (expected argument vector, c17_check); extracted and applied to the REAL unit text; accept/reject cross-checked against the installed systemd-analyze verify in the thorough tier only",
+            "hand-written model coq/theories/Escape.v of src/udev_utils.rs (escape_one_char, systemd_arg_escape, build_exclude_text, build_service_text), tied to the code by the escape engine's class TEXT on every generated case, including every Unicode scalar value as a one-character pattern (sampled in the quick tier, complete in the thorough tier). What class TEXT compares (extracted EscapeSpec.text_class_ok): the one ExecStart= value systemd finds in [Service] of the REAL unit text must end, byte for byte, with what the model writes from the exclude region on (build_exclude_text, then ' --dev-file /%I'), and the part in front of that must be, read alone by systemd's rules, an intact prefix. NOT compared and not tied to the code: the other lines of the unit (Description=, Type=, User=, Group=, blank lines, further settings or sections; Escape.service_header is the text at the time of writing and nothing depends on it) and the words of the front part of the line (program path, --verbose, layout path)",
+            "hand-written oracle coq/theories/Systemd.v: how systemd 252 reads a unit FILE up to the ExecStart= values of [Service] (service_exec_starts: line ends, backslash continuation, comment lines also inside a continued line, byte order mark, sections, key=value, UTF-8 cleanliness; settings other than ExecStart= are read past, not interpreted) and how it reads an ExecStart= value (decode: word splitting, quotes, C escapes, lone ';', % specifiers, $ variables); coq/theories/EscapeSpec.v: the checker c17_check and the proposition c17_holds it decides (C17_check_sound, C17_check_complete); extracted and applied to the REAL unit text; accept/reject of decoder and file reader cross-checked against the installed systemd-analyze verify in the thorough tier only (the file reader's rules were also compared by hand with its messages)",
             "Rust's char::is_control = Unicode category Cc = U+0000..U+001F, U+007F..U+009F; char::encode_utf8 and the {:0>Nx} formatting as modelled in Escape.v (both exercised by the text comparison)",
         ],
         "rule": ("cases = lists of exclude patterns given to the real build_service_text: (sweep) every non-NUL Unicode scalar value as a one-character pattern, 64 patterns per case "
                  "[quick: all below U+3000, every 37th above, all 66 noncharacters and the neighbours of noncharacter/surrogate/plane boundaries; thorough: all 1 112 063]; "
                  "(single) one-scalar single-pattern cases; (pair) all ordered pairs over 82 syntax-relevant characters as one pattern; (hand) hand-written patterns; "
                  "(random) seeded random strings of length 1..12 over a syntax-heavy alphabet in lists of 0..5 patterns. evaluations = cases run through the real code and both checks; "
-                 "distinct_nontrivial = number of distinct pattern lists among them other than a single pattern of ASCII letters and digits only"),
-        "explanation": ("C17_exec_roundtrip / C17_unit_file_shape / C17_unit_roundtrip / C17_check_on_model are proved in Coq for every list of non-empty patterns over non-NUL scalar values, "
-                        "every instance name without '$' and every environment (no bound on count or length): the model's unit text, read back by Systemd.decode, yields exactly --exclude <UTF-8 bytes of the pattern>. "
-                        "The run ties the model to the code (class TEXT) and applies the extracted checker c17_check directly to the real code's unit text (clause C17.roundtrip), "
+                 "distinct_nontrivial = number of distinct pattern lists among them other than a single pattern of ASCII letters and digits only. "
+                 "Per case: (class TEXT) text_class_ok on the real text under both environments, see the trusted base; a real text with no or several ExecStart= assignments in [Service], with a different "
+                 "exclude region or tail, or without an intact front part is a difference. unit_text_differs_outside_exec_start / exec_start_front_part_differs_from_model count accepted real texts that "
+                 "differ from the model's full text in other lines / in the front part of the line (information, not a difference). (clause C17.roundtrip) c17_check on the real text: systemd finds exactly one "
+                 "ExecStart= assignment in [Service] and reads it as pre ++ (--exclude <pattern bytes> for each pattern, in order) ++ (--dev-file /<instance>), where pre is not empty, has no word --exclude, "
+                 "has --layout-file followed by a word and has --only-if-keyboard outside the place of that word. The checker demands nothing else: not the other lines of the unit, not the program path, "
+                 "not --verbose, not the layout path"),
+        "explanation": ("Proved in Coq for every list of non-empty patterns over non-NUL scalar values, every instance name without '$' and every environment (no bound on count or length): "
+                        "C17_exec_roundtrip / C17_unit_file_shape / C17_unit_roundtrip / C17_check_on_model (the model's unit text: systemd finds one ExecStart= assignment, no pattern can break the line, start a comment "
+                        "or a continued line or add an assignment; read back by Systemd.decode it yields exactly --exclude <UTF-8 bytes of the pattern>); C17_any_prefix (the same for ANY front part of the line "
+                        "that systemd reads as complete words: the round trip does not depend on program path, --verbose or layout path); C17_check_sound / C17_check_complete (on an arbitrary text the checker "
+                        "answers true exactly when the text has the property as stated); C17_text_class_on_model / C17_text_class_implies_check (the model passes the TEXT comparison and every text that passes it "
+                        "has the property). The run ties the model to the code (class TEXT) and applies the extracted checker c17_check directly to the real code's unit text (clause C17.roundtrip), "
                         "under an environment with no variable set and one where every variable is set."),
         "assumptions": [
-            "systemd is represented by coq/theories/Systemd.v; it is stricter than systemd 252 in three documented places (an unknown escape sequence rejects instead of being kept with a warning; anything after a lone ';' rejects; braceless $NAME inside a word is substituted)",
+            "systemd is represented by coq/theories/Systemd.v; it is stricter than systemd 252 in four documented places (an unknown escape sequence rejects instead of being kept with a warning; anything after a lone ';' rejects; braceless $NAME inside a word is substituted; an empty ExecStart= counts as an assignment instead of emptying the list, so a unit with such a reset is refused)",
+            "only the unit file itself is read: drop-in directories, lines longer than 1 MiB and the effect of other settings of the unit on how the command is run (Type=, Environment=, RootDirectory= ...) are not modelled; the environment is represented by the two samples 'no variable set' and 'every variable set to \"X Y\"' at run time and is universally quantified in the theorems",
             "the instance name (%I) contains no '$' byte: systemd applies variable expansion to the expanded /%I as well",
             "patterns contain no NUL and are non-empty (an empty pattern leaves --exclude without its argument: outside the property's quantifier)",
             "specifier letters other than %i/%I that the installed systemd resolves are modelled as 'expands to something that is not the pattern'",
+            "'The surrounding arguments stay intact' is read as: they are still there as whole words in front of the exclude region (a program, --layout-file with a value, --only-if-keyboard, no stray --exclude) and --dev-file /<instance> directly after it; which program, which layout path and which further options is not part of the property",
         ],
     },
 }
